@@ -130,7 +130,7 @@ class ServiceDecorator(Decorator):
         except Exception:
             # a decorator whose start failed is not stopped: take back the names registered so far
             for domain, name in registered:
-                Function.service_remove(global_ctx_name, domain, name)
+                Function.service_remove(global_ctx_name, domain, name, self._service_callback)
             raise
 
         # update service params. In the legacy implementation, Pyscript services were registered
@@ -142,4 +142,4 @@ class ServiceDecorator(Decorator):
         """Unregister the service."""
         for domain, name in self.args:
             _LOGGER.debug("Unregistering service: %s.%s", domain, name)
-            Function.service_remove(self.dm.ast_ctx.global_ctx.get_name(), domain, name)
+            Function.service_remove(self.dm.ast_ctx.global_ctx.get_name(), domain, name, self._service_callback)
